@@ -2,6 +2,8 @@
 C03 — numeric limits are enforced exactly at their boundary.
 -/
 import NormModel.Model.Limits
+import NormModel.Proofs.Checks
+import NormModel.Properties.C09
 import NormModel.Properties.C19
 import NormModel.Generated.Rules
 namespace Norm.C03
@@ -143,6 +145,135 @@ theorem counters_exact :
     (∀ commas, tooManyArgs commas = true ↔ 4 < commas + 1) ∧
     (∀ n, tooManyVars n = true ↔ 5 < n) := by
   refine ⟨?_, ?_, ?_, ?_⟩ <;> intro n <;> simp [tooManyLines, tooManyFuncs, tooManyArgs, tooManyVars] <;> omega
+
+
+/-! ### End to end: the whole file, any rule table
+
+`CheckLineLen` is in the `_rule` list (obligation `linelen_runs_on_every_rule`), so the engine
+hands it every statement; the statements tile the token list (C07). Hence, for **every** rule
+table (`step` universally quantified: nothing is assumed about the unported rules beyond that
+the run reaches a verdict), the lines reported by `CheckLineLen` over the whole file are
+exactly the lines holding a token that starts beyond column 81. -/
+
+theorem tokDiag_name (c : String) (t : Token) : (tokDiag c t).name = c := rfl
+theorem tokDiag_highlights (c : String) (t : Token) : (tokDiag c t).highlights = [hlOfToken t] := rfl
+
+/-- **File-level iff**, in terms of tokens. -/
+theorem linelen_e2e {σ : Type} (step : σ → Nat → StepRes σ) (s s' : σ) (toks : List Token)
+    (t : List Segment) (u : List Nat) (h : engineRun step 0 s toks.length = .ok s' t u) (l : Nat) :
+    (∃ d ∈ alwaysDiagsRun toks t, d.name = "LINE_TOO_LONG" ∧ ∃ hl ∈ d.highlights, hl.line = l) ↔
+      ∃ tk ∈ toks, tk.line = l ∧ 81 < tk.col := by
+  constructor
+  · rintro ⟨d, hd, hn, hl, hhl, hline⟩
+    unfold alwaysDiagsRun at hd
+    obtain ⟨g, _, hdg⟩ := List.mem_flatMap.mp hd
+    unfold alwaysDiags at hdg
+    rcases List.mem_append.mp hdg with hm | hm
+    · obtain ⟨tk, _, rfl⟩ := List.mem_map.mp hm
+      rw [tokDiag_name] at hn; exact absurd hn (by decide)
+    · obtain ⟨tk, htk, rfl⟩ := List.mem_map.mp hm
+      rw [tokDiag_highlights] at hhl
+      simp only [List.mem_singleton] at hhl
+      subst hhl
+      obtain ⟨h1, h2, _⟩ := lineLenToks_sound _ _ _ htk
+      exact ⟨tk, segToks_sub toks g tk h1, hline, h2⟩
+  · rintro ⟨tk, htk, hl, hc⟩
+    obtain ⟨g, hg, hseg⟩ := token_in_some_segment step s s' toks t u h tk htk
+    obtain ⟨t', ht', h1, _⟩ := lineLenToks_complete (segToks toks g) [] l (by simp) ⟨tk, hseg, hl, hc⟩
+    refine ⟨tokDiag "LINE_TOO_LONG" t', ?_, rfl, hlOfToken t', by simp [tokDiag_highlights], h1⟩
+    unfold alwaysDiagsRun
+    refine List.mem_flatMap.mpr ⟨g, hg, ?_⟩
+    unfold alwaysDiags
+    exact List.mem_append.mpr (Or.inr (List.mem_map.mpr ⟨t', ht', rfl⟩))
+
+/-- **From the source text**: lex the file (C09 gives every token its true visual position),
+run the engine with any rule table to a verdict: line `l` is reported by `CheckLineLen` iff
+some token of the file starts on line `l` at a visual column beyond 81. -/
+theorem linelen_source {σ : Type} (u : Uni) (src : List Char) (r : LexResult) (hlex : lex u src = .ok r)
+    (step : σ → Nat → StepRes σ) (s s' : σ) (t : List Segment) (uu : List Nat)
+    (h : engineRun step 0 s r.tokens.length = .ok s' t uu) (l : Nat) :
+    (∃ d ∈ alwaysDiagsRun r.tokens t, d.name = "LINE_TOO_LONG" ∧ ∃ hl ∈ d.highlights, hl.line = l) ↔
+      ∃ tk ∈ r.tokens, (visualPos src tk.start).1 = l ∧ 81 < (visualPos src tk.start).2 := by
+  rw [linelen_e2e step s s' r.tokens t uu h l]
+  constructor
+  · rintro ⟨tk, htk, h1, h2⟩
+    have hp := (C09.token_positions u src r hlex tk htk).1
+    have e1 : tk.line = (visualPos src tk.start).1 := congrArg Prod.fst hp
+    have e2 : tk.col = (visualPos src tk.start).2 := congrArg Prod.snd hp
+    exact ⟨tk, htk, by omega, by omega⟩
+  · rintro ⟨tk, htk, h1, h2⟩
+    have hp := (C09.token_positions u src r hlex tk htk).1
+    have e1 : tk.line = (visualPos src tk.start).1 := congrArg Prod.fst hp
+    have e2 : tk.col = (visualPos src tk.start).2 := congrArg Prod.snd hp
+    exact ⟨tk, htk, by omega, by omega⟩
+
+/-- the column of the newline that ends a line of width `w`, with any text after it -/
+theorem newline_column_rest (pre line rest : List Char) (h : pre = [] ∨ pre.getLast? = some '\n') :
+    visualPos (pre ++ line ++ '\n' :: rest) (pre.length + line.length) =
+      (1 + C19.nlCount pre + C19.nlCount line, lineWidth line + 1) := by
+  have := C19.visualPos_prefix pre (line ++ '\n' :: rest) line.length h
+  rw [List.append_assoc, this]
+  simp only [visualPos, List.take_left']
+  have hl := C19.advPos_lines (1, 1) line
+  unfold lineWidth
+  have hpos : 1 ≤ (advPos (1, 1) line).2 := by
+    have mono : ∀ (l : List Char) (p : Nat × Nat), 1 ≤ p.2 → 1 ≤ (advPos p l).2 := by
+      intro l
+      induction l with
+      | nil => intro p hp; simpa [advPos] using hp
+      | cons c cs ih =>
+        intro p hp
+        simp only [advPos, List.foldl_cons] at ih ⊢
+        apply ih
+        unfold advPos1; split
+        · simp
+        · split <;> simp <;> omega
+    exact mono line (1, 1) (Nat.le_refl 1)
+  ext
+  · simp only [hl]; omega
+  · simp only; omega
+
+/-- **A code line of more than 80 columns that ends in a newline token is reported**, wherever it
+is in the file and whatever the rules are: if the file is `pre ++ line ++ "\n" ++ rest` with
+`pre` made of complete lines, the newline is a token of its own (it is not inside a comment,
+a literal or a splice), and the line is wider than 80, then `LINE_TOO_LONG` is reported on
+that line. -/
+theorem long_line_reported {σ : Type} (u : Uni) (pre line rest : List Char)
+    (hpre : pre = [] ∨ pre.getLast? = some '\n') (hline : ∀ c ∈ line, c ≠ '\n')
+    (r : LexResult) (hlex : lex u (pre ++ line ++ '\n' :: rest) = .ok r)
+    (tk : Token) (htk : tk ∈ r.tokens) (hstart : tk.start = pre.length + line.length)
+    (hw : 80 < lineWidth line)
+    (step : σ → Nat → StepRes σ) (s s' : σ) (t : List Segment) (uu : List Nat)
+    (h : engineRun step 0 s r.tokens.length = .ok s' t uu) :
+    ∃ d ∈ alwaysDiagsRun r.tokens t, d.name = "LINE_TOO_LONG" ∧
+      ∃ hl ∈ d.highlights, hl.line = 1 + C19.nlCount pre := by
+  have hnl : C19.nlCount line = 0 := by
+    unfold C19.nlCount
+    exact List.count_eq_zero.mpr (fun hm => hline '\n' hm rfl)
+  have hv := newline_column_rest pre line rest hpre
+  rw [hnl] at hv
+  apply (linelen_source u _ r hlex step s s' t uu h (1 + C19.nlCount pre)).mpr
+  refine ⟨tk, htk, ?_, ?_⟩
+  · rw [hstart, hv]; simp
+  · rw [hstart, hv]; simp only; omega
+
+/-- … and a file all of whose tokens start at or before column 81 gets no `LINE_TOO_LONG` from
+`CheckLineLen` on any line. -/
+theorem short_lines_silent {σ : Type} (step : σ → Nat → StepRes σ) (s s' : σ) (toks : List Token)
+    (t : List Segment) (u : List Nat) (h : engineRun step 0 s toks.length = .ok s' t u)
+    (hall : ∀ tk ∈ toks, tk.col ≤ 81) :
+    ∀ d ∈ alwaysDiagsRun toks t, d.name ≠ "LINE_TOO_LONG" := by
+  intro d hd hn
+  have hhl : ∃ hl, hl ∈ d.highlights := by
+    unfold alwaysDiagsRun at hd
+    obtain ⟨g, _, hdg⟩ := List.mem_flatMap.mp hd
+    unfold alwaysDiags at hdg
+    rcases List.mem_append.mp hdg with hm | hm <;> obtain ⟨tk, _, rfl⟩ := List.mem_map.mp hm <;>
+      exact ⟨hlOfToken tk, by simp [tokDiag_highlights]⟩
+  obtain ⟨hl, hhl⟩ := hhl
+  obtain ⟨tk, htk, _, hc⟩ := (linelen_e2e step s s' toks t u h hl.line).mp ⟨d, hd, hn, hl, hhl, rfl⟩
+  have := hall tk htk
+  omega
 
 /-- Non-vacuity at L-1, L, L+1 for each limit. -/
 example : lineWidth ("\t".toList ++ List.replicate 76 'a') = 80 ∧ lineWidth ("\t".toList ++ List.replicate 77 'a') = 81 ∧
